@@ -78,3 +78,12 @@ Theorem C02_only_absence_is_reported_as_missing : forall canon digest sig_ok par
   exists root' lim', find_run root = Ok (root', lim', None).
 Proof. exact missing_signature_iff. Qed.
 Print Assumptions C02_only_absence_is_reported_as_missing.
+
+(* source tie: a signature that is present but does not verify makes the TRANSLATED ValidateEncodedResponse of this run
+   return an error other than "missing signature" *)
+From V Require Import Generated Keys GenPrelude GenPreludeD GenPreludeT GenFuncs GenTree P_GenTree P_GenTreeProps.
+Theorem C02_source_bad_response_signature_fatal : forall parse dsig decrypt cfg now enc raw root,
+  cfg_skip_sig cfg = false -> b64_decode enc = Ok raw -> parse raw = Ok root -> dsig root = DErr ->
+  exists e, G_ValidateEncodedResponse parse dsig (decrypt_assertions decrypt) cfg now enc = PVal (Err e) /\ e <> EMissingSignature.
+Proof. exact source_bad_root_signature_fatal. Qed.
+Print Assumptions C02_source_bad_response_signature_fatal.
